@@ -1,5 +1,8 @@
 import RdpModel.Wire.Per
+import RdpModel.Wire.Emit
+import RdpModel.Spec.Strict
 import Driver.C13
+
 namespace Rdp.Driver
 open Rdp Rdp.Per
 
@@ -34,6 +37,20 @@ def per (toks : List String) : String :=
       let w := writeLength n
       "w=" ++ toHex w ++ " " ++ showRRNat (readLength (w ++ tail2)) ++ "\t" ++
         (if n ≤ 0x7fff then "w=" ++ toHex w ++ " r=" ++ toString n ++ " left=abcd" else "-")
+    | none => "bad-case"
+  | ["per_asn1_int", n] =>
+    match n.toNat? with
+    | some n =>
+      let w := Emit.derUInt n
+      let rd := match Spec.Strict.derInt w "INTEGER" with | .ok (v, []) => toString v | _ => "E"
+      "w=" ++ toHex w ++ " r=" ++ rd ++ "\t" ++ "w=* r=" ++ toString n
+    | none => "bad-case"
+  | ["per_asn1_oct", hx] =>
+    match ofHex hx with
+    | some b =>
+      let w := Nla.derOctets b
+      let rd := match Spec.Strict.tlv 0x04 w "OCTET STRING" with | .ok (v, []) => hexOrDash v | _ => "E"
+      "w=" ++ hexOrDash w ++ " r=" ++ rd ++ "\t" ++ "w=* r=" ++ hexOrDash b
     | none => "bad-case"
   | ["per_rt_int", n] =>
     match n.toNat? with
